@@ -172,3 +172,29 @@ for _f in sorted(_glob.glob(_os.path.join(_os.path.dirname(_os.path.abspath(__fi
 # C09, word-count clause: title-less text-only pages with and without unlikely subtrees on both sides of the
 # two-pass threshold (the pages of C20), judged by C09_WordCountMatchesText in CallsTrace
 PROPS["C09"]["stages"].append(_c09_wordcount_stage())
+
+
+# C01, crash stages: the inputs of every other family are also totality tests. Without these stages a panic on,
+# say, a generated table would only be logged by C18 as "crashed, judged by C01" while C01 never sees that input.
+_SLOW_GEN = {"C14_quick", "C17_conv", "C18_quick", "C19_full", "PN_grid_q", "C15_q_all", "C15_q_colon", "C15_q_seplong", "C16_q3"}
+
+
+def _crash_stage(pid, st, quick_n, thorough_n):
+    """quick: only the generator configs that take a few seconds; thorough: all of the family's quick configs"""
+    runs = st["gen"]["runs"]
+    q = runs["quick"] if isinstance(runs, dict) else runs
+    q = [r for r in q if not r.get("expect_violation")]
+    fast = [r for r in q if r["cfg"] not in _SLOW_GEN and r.get("mode", "bfs") == "bfs"]
+    s = dict(st)
+    s.update(name="crash-" + pid + "-" + st.get("name", "main"), handler=st.get("handler", pid),
+             gen=dict(runs=dict(quick=fast, thorough=q)), sample=dict(quick=quick_n, thorough=thorough_n),
+             crash_is_violation=True, two_orders=False, skip_in_quick=not fast)
+    return s
+
+
+for _pid, _qn, _tn in (("C04", 1500, 16000), ("C05", 1500, 12000), ("C07", 1500, 24000), ("C08", 1500, 24000), ("C03", 1500, 30000),
+                       ("C06", 1500, 3000), ("C14", 1000, 3000), ("C15", 1500, 6000), ("C16", 3000, 40000), ("C17", 1500, 16000),
+                       ("C18", 2000, 14000), ("C19", 2000, 12000), ("C20", 1000, None)):
+    for _st in PROPS[_pid]["stages"]:
+        if _st.get("trace") and _st.get("gen") and _st.get("name", "main") in ("main", "pagenumber-model"):
+            PROPS["C01"]["stages"].append(_crash_stage(_pid, _st, _qn, _tn))
